@@ -402,3 +402,76 @@ pub fn gen_calls(w: &mut impl Write, thorough: bool, seed: u64) {
         writeln!(w, "exec tag=calls prog={} calc={} budget=2000", hex(&p), usage).unwrap();
     } } }
 }
+
+/// C02: probes within 9 bytes of both ends of every region (packet, metadata, stack, a registered
+/// allowed range inside a larger canaried buffer), plus null and wrap-around addresses, for every
+/// access instruction and width, on layouts with empty / non-empty packet and metadata buffers.
+pub fn gen_memprobe(w: &mut impl Write, thorough: bool, seed: u64) {
+    let mut r = Rng::new(seed ^ 0xb0b);
+    let widths: [(u8, u8, u8, u8, u8, i64); 4] = [(0x71, 0x72, 0x73, 0x30, 0x50, 1), (0x69, 0x6a, 0x6b, 0x28, 0x48, 2), (0x61, 0x62, 0x63, 0x20, 0x40, 4), (0x79, 0x7a, 0x7b, 0x38, 0x58, 8)];
+    let layouts: &[(usize, usize)] = &[(64, 0), (64, 32), (0, 32), (0, 0), (8, 0), (1, 8)];
+    for &(ml, bl) in layouts {
+        let mem = pattern(ml, 11); let mb = pattern(bl, 13);
+        let extra = pattern(64, 17);
+        // regions: name, patch base, length, (stack handled through r10)
+        let regions: Vec<(&str, i64, i64)> = vec![("mem", 0, ml as i64), ("mbuff", 0, bl as i64), ("extra0", 16, 48), ("stack", 0, 512)];
+        for (rname, lo, hi) in regions {
+            for &(ldx, st, stx, labs, lind, wd) in &widths {
+                for edge in [lo, hi] { for delta in -9i64..=9 {
+                    let target = edge + delta;              // offset of the access relative to the region's base
+                    let step = if thorough { 1 } else { 1 };
+                    let _ = step;
+                    // split the target into a base-register part and the instruction's 16-bit offset
+                    let offs: &[i16] = if thorough { &[0, 7, -8, 127, -32768, 32767] } else { &[0, -8, 32767] };
+                    for &off in offs {
+                        for kind in 0..4 {
+                            // kind 0: ldx, 1: st imm, 2: stx, 3: xadd (w and dw only)
+                            if kind == 3 && wd < 4 { continue; }
+                            if !thorough && kind == 1 && off != 0 { continue; }
+                            let mut p = vec![]; init_regs(&mut p);
+                            let breg = 1 + r.below(9) as u8; let vreg = (breg % 9) + 1;
+                            let patch;
+                            if rname == "stack" {
+                                // r10 - 512 + target - off
+                                p.extend(ins(0xbf, breg, 10, 0, 0)); p.extend(ins(0x07, breg, 0, 0, (-512 + target - off as i64) as i32));
+                                patch = "-".to_string();
+                            } else {
+                                p.extend(lddw(breg, 0)); patch = format!("{}:{}:{}", p.len() / 8 - 2, rname, target - off as i64);
+                            }
+                            match kind {
+                                0 => p.extend(ins(ldx, vreg, breg, off, 0)),
+                                1 => p.extend(ins(st, breg, 0, off, 0x5a5a5a5a)),
+                                2 => p.extend(ins(stx, breg, vreg, off, 0)),
+                                _ => p.extend(ins(if wd == 4 { 0xc3 } else { 0xdb }, breg, vreg, off, 0)),
+                            }
+                            p.extend(ins(0xb7, breg, 0, 0, 0)); fold_exit(&mut p);
+                            writeln!(w, "exec tag=memprobe prog={} mem={} mbuff={} extra={} arange=0:16:48 patch={} budget=300", hex(&p), hex(&mem), hex(&mb), hex(&extra), patch).unwrap();
+                        }
+                    }
+                    // ldabs / ldind address the packet only
+                    if rname == "mem" {
+                        if target >= 0 { let mut p = vec![]; init_regs(&mut p); p.extend(ins(labs, 0, 0, 0, target as i32)); fold_exit(&mut p);
+                            writeln!(w, "exec tag=memprobe prog={} mem={} mbuff={} budget=300", hex(&p), hex(&mem), hex(&mb)).unwrap(); }
+                        for regv in [0i64, 5, -5, -1000, 0x1_0000_0000] {
+                            let imm = target - regv; if imm < 0 || imm > 0xffff_ffff { continue; }
+                            let mut p = vec![]; init_regs(&mut p); p.extend(lddw(4, regv as u64)); p.extend(ins(lind, 0, 4, 0, imm as u32 as i32)); fold_exit(&mut p);
+                            writeln!(w, "exec tag=memprobe prog={} mem={} mbuff={} budget=300", hex(&p), hex(&mem), hex(&mb)).unwrap();
+                        }
+                    }
+                } }
+                // null and wrap-around addresses
+                for a in [0u64, 1, 7, 8, u64::MAX, u64::MAX - 1, u64::MAX - 7, u64::MAX - 8, 0x8000_0000_0000_0000] { for off in [0i16, -8, 8] {
+                    for (kind, opc) in [(0, ldx), (2, stx)] {
+                        let mut p = vec![]; init_regs(&mut p); p.extend(lddw(3, a));
+                        if kind == 0 { p.extend(ins(opc, 2, 3, off, 0)); } else { p.extend(ins(opc, 3, 2, off, 0)); }
+                        p.extend(ins(0xb7, 3, 0, 0, 0)); fold_exit(&mut p);
+                        writeln!(w, "exec tag=memprobe prog={} mem={} mbuff={} budget=300", hex(&p), hex(&mem), hex(&mb)).unwrap();
+                    }
+                    let mut p = vec![]; init_regs(&mut p); p.extend(lddw(3, a)); p.extend(ins(lind, 0, 3, 0, off as i32 as u32 as i32)); fold_exit(&mut p);
+                    writeln!(w, "exec tag=memprobe prog={} mem={} mbuff={} budget=300", hex(&p), hex(&mem), hex(&mb)).unwrap();
+                } }
+                if rname != "mem" { continue; }
+            }
+        }
+    }
+}
